@@ -17,7 +17,7 @@
 (* Property C36: Export(Import(d', Export(d), TRUE)) = Export(d).                        *)
 EXTENDS Integers, Sequences, FiniteSets, TLC, Json
 
-CONSTANTS Modes,      \* subset of {"free", "rot", "sim"}: generator modes (see AddNode)
+CONSTANTS Modes,      \* subset of {"free", "rot", "dup", "sim"}: generator modes (see AddNode)
           FreeMax,    \* "free": forests with <= FreeMax nodes, every node chooses its attributes and page step freely
           NCFree,     \* "free": nodes after the first choose among the first NCFree attribute combinations
           NCRot,      \* "rot": node 1 chooses among the first NCRot attribute combinations
@@ -111,6 +111,7 @@ Init == nodes = <<>> /\ target \in Targets /\ mode \in Modes
 (* page of a new node = lower bound + step, lower bound = page of the previous sibling, else of the parent, else 1. *)
 (* "free": step in {-1, 0, 1}; pages 0 and NPages+1 (not in the document) and decreasing pages occur.              *)
 (* "rot" : steps follow DeltaSeq and stay inside the document, so that every shape is importable.                  *)
+(* "dup" : every item has the same title (combination 7), steps follow DeltaSeq: items sharing one destination name.  *)
 (* "sim" : every node chooses its combination freely, steps in {0, 1} inside the document (for -simulate).         *)
 AddNode ==
   /\ Len(nodes) < (IF target # 0 THEN target ELSE IF mode = "free" THEN FreeMax ELSE MaxNodes)
@@ -126,6 +127,9 @@ AddNode ==
              ELSE IF mode = "sim"
              THEN \E k \in 1..NC : \E dl \in {0, 1} :
                     nodes' = Append(nodes, [d |-> d, k |-> k, p |-> IF lb + dl <= NPages THEN lb + dl ELSE lb])
+             ELSE IF mode = "dup"
+             THEN LET dl == RotDelta(7, i + 1)
+                  IN nodes' = Append(nodes, [d |-> d, k |-> 7, p |-> IF lb + dl <= NPages THEN lb + dl ELSE lb])
              ELSE \E k \in (IF i = 1 THEN 1..NCRot ELSE {Rot(nodes[1].k, i)}) :
                     LET dl == RotDelta(IF i = 1 THEN k ELSE nodes[1].k, i)
                     IN nodes' = Append(nodes, [d |-> d, k |-> k, p |-> IF lb + dl <= NPages THEN lb + dl ELSE lb])
